@@ -409,6 +409,13 @@ type tmFeasSearch struct {
 	Target    func(ssa.Instruction) bool
 	MaxStates int
 	NoFacts   bool // do not assume the guard facts of From's block
+	// Known seeds the valuation at the start: SSA booleans whose truth is given (the result of a call of which it is known
+	// what it returned). They are forgotten like every other value when their block is entered again.
+	Known map[ssa.Value]bool
+	// Collect, when set, is called for every target instruction a feasible path arrives at, with the valuation of that
+	// path (eval: the constant a value stands for on the path, if any); the search then goes on with the other paths
+	// instead of stopping at the first target, and find reports whether any target was reached.
+	Collect func(in ssa.Instruction, eval func(ssa.Value) (constant.Value, bool))
 }
 
 // find reports whether a feasible path exists (err != nil: the state bound was hit).
@@ -447,6 +454,10 @@ func (q tmFeasSearch) find() (bool, error) {
 			}
 		}
 	}
+	for v, t := range q.Known {
+		start.st.known[v] = t
+	}
+	reached := false
 	seen := map[string]bool{}
 	work := []item{start}
 	states := 0
@@ -491,7 +502,17 @@ func (q tmFeasSearch) find() (bool, error) {
 		for i := it.first; i < len(it.blk.Instrs); i++ {
 			in := it.blk.Instrs[i]
 			if q.Target != nil && q.Target(in) {
-				return true, nil
+				if q.Collect == nil {
+					return true, nil
+				}
+				reached = true
+				cur := st
+				q.Collect(in, func(v ssa.Value) (constant.Value, bool) {
+					r := cur.eval(v, 0)
+					return r.c, r.c != nil
+				})
+				stopped = true
+				break
 			}
 			if q.Stop != nil && q.Stop(in) {
 				stopped = true
@@ -529,5 +550,5 @@ func (q tmFeasSearch) find() (bool, error) {
 			work = append(work, item{blk: s, prev: it.blk, st: ns})
 		}
 	}
-	return false, nil
+	return reached, nil
 }
